@@ -219,8 +219,13 @@ def job_flow(job):
 def _flow_cases(tier):
   from props import c09, pipeline as P
   fam = P.skeleton_family(tier)
-  names = list(fam) if tier == 'thorough' else [
-      k for k in fam if not k.startswith('single_') or k in (
+  # (tensor_feeds_three_concats: the calibrate-then-quantize flow forks on
+  # every pairwise comparison of symbolic scales and does not finish in the
+  # path budget; the pipeline checks cover it)
+  names = [k for k in fam if k != 'tensor_feeds_three_concats'] \
+      if tier == 'thorough' else [
+      k for k in fam if k != 'tensor_feeds_three_concats' and (
+          not k.startswith('single_')) or k in (
           'single_FC', 'single_EMBEDDING_LOOKUP', 'single_SPLIT',
           'single_CONCAT_SAME', 'single_BMM_CONST', 'single_MEAN')]
   if tier == 'thorough':
@@ -230,6 +235,8 @@ def _flow_cases(tier):
   # alone (no neighbour collects statistics for its operands)
   cs += [(s, 'only_last_op_SRQ8') for s in fam
          if s.startswith('single_') and s not in names]
+  cs += [(s, 'srq8_then_catchall_WO') for s in names
+         if not s.startswith('single_') or s == 'single_FC']
   return cs
 
 
